@@ -40,6 +40,24 @@ CHECKS["C11"] = dict(
     technique="property-based testing (proptest), model-based comparison with a reference cursor after every call",
 )
 
+STORE_NOTE = "Single-threaded step driving through the rescrv_blue_verif hooks (flush / compaction / verifier are ops of the history); batches hold distinct keys; ingested ssts carry ascending timestamps; known findings R-D (reopen) and R-R (verifier after same-digest re-creation) are excluded by construction and counted."
+CHECKS["C01"] = dict(
+    engine="store-driver",
+    category="exploration",
+    text="Model-based generated-history search: thousands of generated histories per quick run over both store surfaces and generated option settings drive the real store through flushes, trivial moves, merges, GCs, verifier passes and reopen (all 16 levels get occupied), and every universe key is read back against a sequential map model after every checked operation. Histories x configurations is unbounded, so generated exploration with measured shape coverage is the right level; it cannot show absence.",
+    design_ref="DESIGN.md §5 C01",
+    note=STORE_NOTE,
+    technique="stateful property-based testing (proptest op sequences + interpreter) against a sequential map model",
+)
+CHECKS["C03"] = dict(
+    engine="store-driver",
+    category="exploration",
+    text="The C01 history search plus scan probes: generated bounds pairs (all nine bound-kind combinations, empty and inverted ranges) and generated cursor programs are compared call by call with a reference cursor over the model's live keys; each probe also walks the whole range forward and backward and cross-checks every returned key with a point read.",
+    design_ref="DESIGN.md §5 C03",
+    note=STORE_NOTE + " Scan timestamps are not compared (assigned by the store).",
+    technique="stateful property-based testing with a reference-cursor oracle and a scan-vs-get differential",
+)
+
 NOT_YET = {
 }
 
@@ -75,6 +93,7 @@ def main():
             "add_only": True,
         },
         "engines": [
+            {"name": "store-driver", "path": "harness/vstore/src/driver.rs", "serves_properties": sorted(k for k, v in CHECKS.items() if v["engine"] == "store-driver"), "kind_free_text": "single-threaded model-based step driver over KeyValueStore / LsmTree: generated op vectors interpreted against the real store (per-case directory on tmpfs) and an in-memory model; flush, compaction step, verifier pass and reopen are ops thanks to the step hooks"},
             {"name": "pbt", "path": "harness/vcore", "serves_properties": sorted(CHECKS.keys()), "kind_free_text": "proptest TestRunner driven from per-property binaries; 16 worker processes, fixed case counts, seeds derived from VERIF_SEED; shrinking; JSON replay files; evidence written by the parent process"},
         ],
         "checks": checks,
